@@ -151,7 +151,7 @@ func VerifC07Par() {
 		c.joined = append(c.joined, false)
 	}
 	x, y, z := c.conns[0], c.conns[1], c.conns[2]
-	sc := verifnd.Choice(4)
+	sc := verifnd.Choice(5)
 	scName := "join_vs_last_leave"
 	switch sc {
 	case 0:
@@ -180,6 +180,21 @@ func VerifC07Par() {
 		y.mustJoin(x.sid)
 		c.seenSids = append(c.seenSids, x.sid)
 		verifnd.Par(func() { x.rh.HandleDisconnect(nil) }, func() { y.rh.HandleDisconnect(nil) }, func() { z.join("", 1) })
+		c.joined[2] = z.pid != 0
+		if z.pid != 0 {
+			c.seenSids = append(c.seenSids, z.sid)
+		}
+	case 4:
+		// a join by id, the last departure from that session and a creation (which may be handed the id just
+		// released) all at once: the joiner ends up in a live, registered session or is refused
+		scName = "join_leave_create"
+		x.mustJoin("")
+		c.seenSids = append(c.seenSids, x.sid)
+		target := x.sid
+		y.pid = 0
+		verifnd.Par(func() { x.rh.HandleDisconnect(nil) }, func() { y.join(target, 2) }, func() { z.join("", 1) })
+		c.joined[0] = false
+		c.joined[1] = y.pid != 0
 		c.joined[2] = z.pid != 0
 		if z.pid != 0 {
 			c.seenSids = append(c.seenSids, z.sid)
